@@ -989,6 +989,10 @@ func (st *e2State) classifyLoop(fn *Func, rs *ast.RangeStmt, why string, addSrc 
 						mapStores++
 						if !loopDep(ix.Index) {
 							report(x, "map store under loop-independent key", "store into "+exprStr(ix.X)+" under a key that does not depend on the iteration: the surviving value depends on iteration order")
+						} else if ac, isC := ast.Unparen(rhs).(*ast.CallExpr); rhs != nil && isC && isBuiltinCall(info, ac, "append") && len(ac.Args) > 0 && exprStr(ac.Args[0]) == exprStr(l) {
+							// m[k] = append(m[k], v): nothing is overwritten; the bucket is in iteration order
+							appends++
+							addSrc(pathOf(info, ix.X), x, why, info.TypeOf(ix.X))
 						} else if rhs != nil && loopDep(rhs) && !declaredInside(baseObj(info, ix.X)) && !st.keyDistinctPerIteration(fn, rs, ix.Index, loopVars) {
 							report(x, "map store under a derived key", "store of an iteration-dependent value into "+exprStr(ix.X)+" under the key "+exprStr(ix.Index)+", which two iterations may share: the surviving value depends on iteration order")
 						}
@@ -1019,6 +1023,16 @@ func (st *e2State) classifyLoop(fn *Func, rs *ast.RangeStmt, why string, addSrc 
 					if lid, isID := l.(*ast.Ident); isID && x.Tok == token.ASSIGN && lo != nil && !mentionsObj(info, rhs, lo) {
 						latches = append(latches, latch{lo, x, lid})
 					}
+					continue
+				}
+				if _, bare := l.(*ast.Ident); !bare && loopVars[lo] {
+					// a store into the current element itself (v.F = …, through the loop's own
+					// value variable): every iteration writes its own element
+					continue
+				}
+				if _, bare := l.(*ast.Ident); bare && lo != nil && st.iterationLocalUse(fn, rs, lo) {
+					// declared outside, but every read lies in the body behind an assignment of the
+					// same iteration and nothing reads it after the loop: a per-iteration temporary
 					continue
 				}
 				if be, ok := ast.Unparen(rhs).(*ast.BinaryExpr); ok && rhs != nil && (be.Op == token.LOR || be.Op == token.LAND) &&
@@ -1612,4 +1626,81 @@ func onlyLeaves(b *ast.BlockStmt) bool {
 		return true
 	}
 	return false
+}
+
+// iterationLocalUse: every read of the local o in fn lies inside the body of rs and is
+// dominated by an assignment to o that also lies inside that body; o is not captured by a
+// function literal nor has its address taken.
+func (st *e2State) iterationLocalUse(fn *Func, rs *ast.RangeStmt, o types.Object) bool {
+	v, ok := o.(*types.Var)
+	if !ok || v.IsField() || fn.isParam(o) || v.Parent() == nil || (v.Pkg() != nil && v.Parent() == v.Pkg().Scope()) {
+		return false
+	}
+	info := fn.Info()
+	var inBody []ast.Node
+	lhs := map[*ast.Ident]bool{}
+	for _, a := range fn.Assignments(o) {
+		as, isAs := a.(*ast.AssignStmt)
+		if !isAs {
+			continue
+		}
+		if as.Tok != token.ASSIGN && as.Tok != token.DEFINE {
+			return false
+		}
+		for _, l := range as.Lhs {
+			if id, ok := ast.Unparen(l).(*ast.Ident); ok && info.ObjectOf(id) == o {
+				lhs[id] = true
+			}
+		}
+		if a.Pos() >= rs.Body.Pos() && a.End() <= rs.Body.End() {
+			inBody = append(inBody, a)
+		}
+	}
+	if len(inBody) == 0 {
+		return false
+	}
+	good := true
+	var walk func(n ast.Node, inLit bool)
+	walk = func(n ast.Node, inLit bool) {
+		ast.Inspect(n, func(z ast.Node) bool {
+			if !good {
+				return false
+			}
+			switch x := z.(type) {
+			case *ast.FuncLit:
+				if x != fn.Lit {
+					walk(x.Body, true)
+					return false
+				}
+			case *ast.UnaryExpr:
+				if id, ok := ast.Unparen(x.X).(*ast.Ident); ok && x.Op == token.AND && info.ObjectOf(id) == o {
+					good = false
+				}
+			case *ast.Ident:
+				if info.ObjectOf(x) != o || lhs[x] || info.Defs[x] != nil {
+					return true
+				}
+				if inLit || x.Pos() < rs.Body.Pos() || x.End() > rs.Body.End() {
+					good = false
+					return false
+				}
+				dom := false
+				for _, a := range inBody {
+					if fn.Dominates(a, x) {
+						dom = true
+					}
+				}
+				if !dom {
+					good = false
+				}
+			}
+			return true
+		})
+	}
+	var root ast.Node = fn.Body
+	if fn.Parent != nil && fn.Lit != nil {
+		root = fn.Lit.Body
+	}
+	walk(root, false)
+	return good
 }
